@@ -230,6 +230,7 @@ prop("C13",
      mc=lambda tier: [mc_pair(["openLo", "ka", "notif"], conns=2, msgs=2)] if tier == "quick" else
      [mc_pair(["openLo", "ka", "notif", "cease"], conns=2, msgs=2, dials=2), mc_pair(["openHi", "ka", "upd"], conns=2, msgs=2, passive=True)],
      nontrivial=lambda s, r: any(e["e"] == "acc" for e in syscheck.events_of(r)),
+     end_oracles={"wedge"},       # "... and it has no effect on existing sessions" (nor on later connections)
      rule="peer sets x (source, destination) pairs incl. IPv6 and IPv4-mapped x peer state at arrival; a refused connection "
           "sees no byte and no callback")
 
